@@ -338,6 +338,11 @@ fn exec_inner(op: &str, a: &[u64]) -> Result<Outcome, String> {
             enc_nats(&mut v, ids.iter().map(|&x| x as u64));
             let np = b.tok.prefix_token_ids().len();
             let ns = b.tok.suffix_token_ids().len();
+            // the prefix / suffix ids are those of the CONFIGURED prefix / suffix tokens (whatever else the configuration
+            // says: vocabulary padding, duplicates in the token list)
+            let cfg_ids = |l: &Vec<String>| l.iter().map(|t| b.specials.iter().position(|x| x == t).map(|i| (b.offset + i) as u32)).collect::<Vec<_>>();
+            let affix_ok = cfg_ids(&c.prefix) == b.tok.prefix_token_ids().iter().map(|&x| Some(x)).collect::<Vec<_>>()
+                && cfg_ids(&c.suffix) == b.tok.suffix_token_ids().iter().map(|&x| Some(x)).collect::<Vec<_>>();
             let mut o;
             let n_clusters: usize = pieces.iter().map(|(sp, p)| if *sp { 1 } else { clusters(p, b.g).len() }).sum();
             match &kind {
@@ -350,6 +355,7 @@ fn exec_inner(op: &str, a: &[u64]) -> Result<Outcome, String> {
                     }
                     o = Outcome::new(ok(v));
                     o.check(repeat_ok, "tokenizing the same input again (after other inputs) gives different ids: state carried between calls");
+                    o.check(affix_ok, "the prefix / suffix ids of the tokenizer are not the ids of the configured prefix / suffix tokens");
                     // C01 oracle: prefix ids, then exactly the UTF-8 bytes (specials as single ids), then suffix ids
                     let mut want: Vec<u32> = b.tok.prefix_token_ids().to_vec();
                     for (sp, p) in &pieces {
@@ -648,9 +654,24 @@ pub fn rand_common(ctx: &mut Ctx, allow_npf: bool) -> Common {
         tokens.push("<sep>".into());
         tokens.push("<mask>".into());
     } else if r < 40 {
-        // duplicates
-        tokens.push("<bos>".into());
-        tokens.insert(1, "<pad>".into());
+        // duplicates, also in FRONT of the first occurrence of later tokens (position in the list != rank among the
+        // distinct entries for everything behind the repeat)
+        match ctx.rng.random_range(0..3) {
+            0 => {
+                tokens.push("<bos>".into());
+                tokens.insert(1, "<pad>".into());
+            }
+            1 => tokens = vec!["<pad>".into(), "<unk>".into(), "<pad>".into(), "<bos>".into(), "<eos>".into()],
+            _ => {
+                let i = ctx.rng.random_range(0..tokens.len() - 1);
+                let at = ctx.rng.random_range(i + 1..tokens.len());
+                let t = tokens[i].clone();
+                tokens.insert(at, t.clone());
+                if ctx.rng.random_bool(0.5) {
+                    tokens.insert(at, t);
+                }
+            }
+        }
     } else if r < 50 {
         tokens = vec!["<pad>".into()];
     } else if r < 58 {
@@ -676,7 +697,8 @@ pub fn rand_common(ctx: &mut Ctx, allow_npf: bool) -> Common {
         tokens.push(["\u{a7}", "\u{e9}", "\u{ff}", "\u{80}"][ctx.rng.random_range(0..4)].into());
         tokens.push(["\u{20ac}", "\u{1F600}", "\u{3a9}", "\u{b6}"][ctx.rng.random_range(0..4)].into());
     }
-    let pick = |ctx: &mut Ctx, toks: &Vec<String>| toks[ctx.rng.random_range(0..toks.len())].clone();
+    // (half of the time the LAST tokens of the list: the ones behind any repeated entry)
+    let pick = |ctx: &mut Ctx, toks: &Vec<String>| if ctx.rng.random_bool(0.5) { toks[toks.len() - 1 - ctx.rng.random_range(0..toks.len().min(2))].clone() } else { toks[ctx.rng.random_range(0..toks.len())].clone() };
     let np = [0, 0, 1, 2, 3][ctx.rng.random_range(0..5)];
     let ns = [0, 0, 1, 2, 3][ctx.rng.random_range(0..5)];
     let prefix = (0..np).map(|_| pick(ctx, &tokens)).collect();
@@ -818,6 +840,33 @@ pub fn run_c01(ctx: &mut Ctx) {
 // ---------------------------------- BPE ----------------------------------
 
 /// random well-formed table over `letters` (+ space): every entry is the concatenation of two earlier tokens
+/// like `rand_table`, but entries may contain white space anywhere ("b c", "ab "): such a merge never applies (words
+/// are split at white space first), yet it is an entry of the vocabulary like any other
+pub fn rand_table_ws(ctx: &mut Ctx, letters: &[&str], n: usize) -> Vec<(Vec<u8>, u32)> {
+    let mut toks: Vec<Vec<u8>> = vec![];
+    for l in letters {
+        for b in l.as_bytes() {
+            if !toks.contains(&vec![*b]) {
+                toks.push(vec![*b]);
+            }
+        }
+    }
+    let mut table: Vec<(Vec<u8>, u32)> = vec![];
+    let mut tries = 0;
+    while table.len() < n && tries < 20 * n + 20 {
+        tries += 1;
+        let a = toks[ctx.rng.random_range(0..toks.len())].clone();
+        let b = toks[ctx.rng.random_range(0..toks.len())].clone();
+        let m = [a.as_slice(), b.as_slice()].concat();
+        if m.len() > 8 || toks.contains(&m) {
+            continue;
+        }
+        table.push((m.clone(), table.len() as u32));
+        toks.push(m);
+    }
+    table
+}
+
 pub fn rand_table(ctx: &mut Ctx, letters: &[&str], n: usize) -> Vec<(Vec<u8>, u32)> {
     let mut toks: Vec<Vec<u8>> = letters.iter().map(|l| l.as_bytes().to_vec()).collect();
     // multi-byte letters are themselves not tokens: start from single bytes
@@ -1135,6 +1184,10 @@ pub fn run_c04(ctx: &mut Ctx) {
             }
             emit_vocab(ctx, "bytevocab", &Kind::Byte { cp_groups: false, pad_to: None }, &c, 300);
             emit_vocab(ctx, "bpevocab", &Kind::Bpe { table: adversarial_tables()[0].clone(), max_vocab: None }, &c, 300);
+            // merges that cross a word boundary (white space inside or at the end): they never apply, but they are entries
+            let tw = |l: &[&str]| l.iter().enumerate().map(|(i, s)| (s.as_bytes().to_vec(), i as u32)).collect::<Vec<_>>();
+            emit_vocab(ctx, "bpevocab", &Kind::Bpe { table: tw(&["ab", " c", "b c", "abc", " d"]), max_vocab: None }, &c, 300);
+            emit_vocab(ctx, "bpevocab", &Kind::Bpe { table: tw(&["ab", "ab ", "\u{a0}", "a\u{a0}", "a\u{a0}b", " a"]), max_vocab: Some(256 + 5 + c.tokens.len()) }, &c, 300);
             // merges whose byte strings are characters a normalisation would change: superscript two, the fi ligature
             let t: Vec<(Vec<u8>, u32)> = vec![(vec![0xC2, 0xB2], 0), (vec![0xEF, 0xAC], 1), (vec![0xEF, 0xAC, 0x81], 2), (vec![b'a', 0xC2, 0xB2], 3)];
             emit_vocab(ctx, "bpevocab", &Kind::Bpe { table: t, max_vocab: None }, &c, 300);
@@ -1156,7 +1209,7 @@ pub fn run_c04(ctx: &mut Ctx) {
             _ => {
                 let ls: &[&str] = &["a", "b", "\u{e4}", " "];
                 let nn = ctx.rng.random_range(0..=20);
-                let t = if i % 9 == 2 { adversarial_tables()[(i as usize / 9) % 12].clone() } else { rand_table(ctx, ls, nn) };
+                let t = if i % 9 == 2 { adversarial_tables()[(i as usize / 9) % 12].clone() } else if i % 9 == 5 { rand_table_ws(ctx, ls, nn) } else { rand_table(ctx, ls, nn) };
                             let max_vocab = match ctx.rng.random_range(0..4) {
                     0 => Some(256 + c.tokens.len() + ctx.rng.random_range(0..=t.len() + 2)),
                     1 => Some(ctx.rng.random_range(0..300)),
